@@ -531,6 +531,8 @@ class Interp:
             if not isinstance(k, str):
                 raise Unsupported('record field must be constant')
             self.map_store(o.m, o.key, k, v)
+        elif isinstance(o, Obj) and ('setitem', o.cls) in self.spec.field_sorts:
+            self.spec.field_sorts[('setitem', o.cls)](self, o, k, v, node)
         elif isinstance(o, Untracked) or self.is_pydict(o):
             pass   # write into abstracted (untracked) state
         elif self.is_pyany(o):
@@ -1850,6 +1852,11 @@ class Interp:
                 return None
             if attr == 'copy':
                 return list(o)
+        if isinstance(o, (SymSeq, list)) and attr == 'extend' and len(args) == 1 and isinstance(args[0], Obj):
+            # list.extend(<opaque list value>): the list is viewed as a sequence of batches (abstraction used for
+            # "concatenation of per-source results"); the batch object is appended as one element
+            o.append(args[0])
+            return None
         if isinstance(o, SymSeq):
             if attr == 'append' and len(args) == 1:
                 o.append(args[0])
@@ -2277,6 +2284,13 @@ def _b_min(I, args, kwargs, node):
     return _b_max(I, args, kwargs, node, is_min=True)
 
 
+def _b_hasattr(I, args, kwargs, node):
+    o, name = args
+    if isinstance(o, Rec) and isinstance(name, str):
+        return name in o.fields
+    raise Unsupported('hasattr on %r' % (o,))
+
+
 def _b_getattr(I, args, kwargs, node):
     if len(args) < 2 or not isinstance(args[1], str):
         raise Unsupported('getattr with a computed attribute name')
@@ -2309,6 +2323,6 @@ BUILTINS = {
     'len': _b_len, 'abs': _b_abs, 'bool': _b_bool, 'set': _b_set, 'list': _b_list, 'dict': _b_dict,
     'print': _b_print, 'isinstance': _b_isinstance, 'str': _b_str, 'tuple': _b_tuple,
     'enumerate': _b_enumerate, 'zip': _b_zip, 'range': _b_range, 'sum': _b_sum, 'sorted': _b_sorted,
-    'float': _b_float, 'int': _b_int, 'max': _b_max, 'min': _b_min, 'round': _b_round, 'getattr': _b_getattr,
+    'float': _b_float, 'int': _b_int, 'max': _b_max, 'min': _b_min, 'round': _b_round, 'getattr': _b_getattr, 'hasattr': _b_hasattr,
     'defaultdict': _b_defaultdict, 'type': _b_type,
 }
